@@ -599,8 +599,16 @@ class CursorClient(Client):
             d, fr, br = self.cur(s, c)
             construct = src_of(stmt)
             # SCN-ROOM census (a step without room is legal as long as the position is not read afterwards)
-            need = fr if k > 0 else br
             self.an.report.ok('SCN-STEP', self.f, construct)
+            ate = s.get(('ate', c))
+            in_loop = any(key[0] == 'lp' and key[2] == c for key in s.facts)
+            forward_step = (k > 0) == (self.direction(c) == FWD)
+            if ate is not None and in_loop and forward_step:
+                self.an.report.bad('SCN-SKIP', self.f, stmt, construct,
+                                   'in the same loop iteration the cursor already consumed `%s` and now additionally skips one unexamined character: '
+                                   'that character is never tested against the other alternatives of the loop (e.g. the `*` of a closing `**/`)' % ate, s)
+            elif in_loop:
+                self.an.report.ok('SCN-SKIP', self.f, construct)
             return [self.move(s, c, k, stmt)]
         self.check_reads(s, stmt.value, stmt)
         if isinstance(stmt.target, ast.Name):
@@ -659,7 +667,11 @@ class CursorClient(Client):
             if cls in ('emmet.token_scanner.TokenScanner', 'emmet.extract_abbreviation.reader.BackwardScanner'):
                 acc = False          # consume() tests `token and ..` / sol() first
             pre = s if (acc or (step < 0 and br is None)) else self.refine_room(s, c, FWD if step > 0 else BWD)
-            ts = [K(self.move(pre, c, step), T)]
+            moved = self.move(pre, c, step)
+            asrc = src_of(a0)
+            if not any(w in asrc for w in ('escape', 'Escape', 'Backslash')):
+                moved = moved.set(('ate', c), asrc)
+            ts = [K(moved, T)]
             return ts, [K(s, FNN)]
         if m in ('eat_while', 'consume_while') and call.args:
             step = 1 if dirn == FWD else -1
@@ -1179,7 +1191,7 @@ class CursorClient(Client):
             return s
         c, dirn = lc
         lid = loop.lineno
-        s = s.set(('lp', lid, c), 'Z')
+        s = s.set(('lp', lid, c), 'Z').drop(('ate', c))
         # snapshots taken before this iteration are not comparable with the marker
         s = s.drop_if(lambda k, v: k[0] == 'lpsnap' and k[1] == lid)
         self.an.loops.setdefault((self.f.qualname, lid), {'cursor': c, 'dir': dirn, 'ok': 0, 'func': self.f, 'node': loop})
